@@ -385,6 +385,9 @@ def gen_quant(rng, atom, state):
     if r < 0.88:
         m = rng.choice((0, 1, 2))
         n = m + rng.choice((0, 1, 2, 4))
+        if state.get("big") and rng.random() < 0.3 and atom.maxlen(40) <= 4:
+            # larger explicit upper bounds (every value up to 70: the generator must not confuse a bound with a constant)
+            n = rng.randint(20, 70)
         return Repeat(atom, m, n, lazy, "{%d,%d}" % (m, n))
     if open_ok:
         state["open"] += 1
